@@ -203,6 +203,22 @@ Theorem C10_copy_of_a_list_is_a_wellformed_list_with_the_same_callbacks :
 Proof. exact CLClone.clone_of_a_list. Qed.
 Print Assumptions C10_copy_of_a_list_is_a_wellformed_list_with_the_same_callbacks.
 
+(* the copy constructor AS THE MODEL'S COMMAND (the one tie B replays against the real CallbackList): the new list object gets
+   a group of its own, which is exactly clone_chain of the source's chain into the empty group with the first generation a
+   fresh list draws, and that generation as its counter; the source's object and group are untouched.  With the theorem
+   above the copy is a well-formed list with the source's callbacks in the source's order, made of nodes of its own *)
+Theorem C10_copy_constructor_clones :
+  forall W c1 c2 c3 behav rec k st src dst so sg st',
+    (1 < W)%N ->
+    get_list st src = Some so -> get_group st (lg so) = Some sg ->
+    step W c1 c2 c3 behav rec k st (CopyCtor src dst) = Some st' ->
+    let g := length (groups st) in
+    get_list st' dst = Some (mkLobj g 1%N) /\
+    get_group st' g = Some (clone_chain (length (heap sg)) (heap sg) (ghead sg) empty_group 1%N) /\
+    get_list st' src = Some so /\ get_group st' (lg so) = Some sg.
+Proof. exact CLClone.copy_constructor_clones. Qed.
+Print Assumptions C10_copy_constructor_clones.
+
 (* swap, self-assignment and move assignment of callback lists at the level of the list objects (a list object = its node
    group and its generation counter): swap exchanges both and touches no node and no other list — the counter travels with
    the nodes; swap with itself, copy assignment from itself and move assignment from itself change nothing at all; move
